@@ -11,9 +11,11 @@ if [ "$1" = "-t" ]; then TESTS=1; shift; fi
 RUNS=$1; PATCH=$(readlink -f "$2"); shift 2
 mkdir -p "$SCR"
 rsync -a --delete --exclude target /repo/ "$SCR/repo/"
-rsync -a --delete --exclude target --exclude target-cli --exclude build.log --exclude build-cli.log /verif/sim/ "$SCR/sim/"
+# the harness as committed (edits in progress in /verif/sim do not leak into a running batch)
+mkdir -p "$SCR/export" && git -C /verif archive HEAD sim known_findings.json | tar -x -C "$SCR/export"
+rsync -a --delete --exclude target --exclude target-cli "$SCR/export/sim/" "$SCR/sim/"
 sed -i "s|path = \"/repo\"|path = \"$SCR/repo\"|" "$SCR/sim/Cargo.toml"
-cp /verif/known_findings.json "$SCR/known_findings.json"
+cp "$SCR/export/known_findings.json" "$SCR/known_findings.json"
 name=$(basename "$PATCH" .diff)
 (cd "$SCR/repo" && git checkout -q -- . && git apply "$PATCH") || { echo "$name patch does not apply"; exit 2; }
 export CARGO_NET_OFFLINE=true RUST_BACKTRACE=0
@@ -29,7 +31,8 @@ if ! (cd "$SCR/sim" && cargo build --release --offline >"$SCR/build.log" 2>&1); 
 fi
 (cd "$SCR/sim" && cargo build --release --offline --manifest-path "$SCR/repo/Cargo.toml" --bin txtpp --target-dir "$SCR/sim/target-cli" >"$SCR/build-cli.log" 2>&1)
 for p in "$@"; do
-    out=$(cd "$SCR/sim" && VERIF_DIR="$SCR" VERIF_CLI="$SCR/sim/target-cli/release/txtpp" VERIF_RUNS=$RUNS ./target/release/txtpp-sim check "$p" quick 2>&1); code=$?
+    if [ "$RUNS" = "-" ]; then unset VERIF_RUNS; else export VERIF_RUNS=$RUNS; fi
+    out=$(cd "$SCR/sim" && VERIF_DIR="$SCR" VERIF_CLI="$SCR/sim/target-cli/release/txtpp" ./target/release/txtpp-sim check "$p" quick 2>&1); code=$?
     cls=$(printf '%s\n' "$out" | grep '^VIOLATION' | sed 's/.*class=\([^ ]*\).*/\1/' | sort -u | tr '\n' ',')
     echo "$name $p exit=$code ${cls}"
 done
